@@ -352,3 +352,36 @@ pub fn run_populations(input: &mut dyn std::io::BufRead, out: &mut dyn Write) {
         out.write_all(b"\n").unwrap();
     }
 }
+
+/// Column stress: several instances of ONE class that all carry the same properties, of the types whose
+/// values have variable length or side tables (Content, Ref, SharedString, strings, CFrame, OptionalCFrame,
+/// PhysicalProperties, sequences, Font): the cases in which a column's values can be permuted or shifted.
+pub fn run_columns(seed: u64, count: usize, out: &mut dyn Write) {
+    use rbx_dom_weak::types::VariantType as T;
+    std::panic::set_hook(Box::new(|_| {}));
+    let mut rng = StdRng::seed_from_u64(seed);
+    let pool = [T::Content, T::Ref, T::SharedString, T::String, T::BinaryString, T::CFrame, T::OptionalCFrame, T::PhysicalProperties,
+                T::NumberSequence, T::ColorSequence, T::Font, T::Attributes, T::Tags, T::UniqueId, T::Int64, T::Bool];
+    for i in 0..count {
+        let n = rng.gen_range(2..7);
+        let mut dom = WeakDom::new(rbx_dom_weak::InstanceBuilder::new("DataModel"));
+        let root = dom.root_ref();
+        let mut refs = Vec::new();
+        for k in 0..n {
+            let parent = if k == 0 || rng.gen_bool(0.6) { root } else { refs[rng.gen_range(0..refs.len())] };
+            refs.push(dom.insert(parent, rbx_dom_weak::InstanceBuilder::new("VerifUnknownCol").with_name(format!("C{}", k))));
+        }
+        let kinds: Vec<T> = (0..rng.gen_range(1..5)).map(|_| pool[rng.gen_range(0..pool.len())]).collect();
+        for r in refs.clone() {
+            for (j, ty) in kinds.iter().enumerate() {
+                if let Some(v) = gen::value_of(*ty, &mut rng, &refs, false) {
+                    dom.get_by_ref_mut(r).unwrap().properties.insert(format!("P{}{:?}", j, ty).as_str().into(), v);
+                }
+            }
+        }
+        let roots: Vec<Ref> = dom.root().children().to_vec();
+        let ev = bin_event(&format!("col:{}:{}", seed, i), &dom, &roots, i % 3 == 0);
+        serde_json::to_writer(&mut *out, &ev).unwrap();
+        out.write_all(b"\n").unwrap();
+    }
+}
